@@ -271,8 +271,8 @@ func printDoc(d *ast.QueryDocument) string {
 	return string(bytes.Join(bytes.Fields(b.Bytes()), []byte(" ")))
 }
 
-var DecorKinds = []string{"alias", "aliasSib", "aliasParent", "aliasId", "idAliased", "typename", "fragT", "fragN", "fragAbs", "fragAbsTypename", "absTypenameFrag", "id",
-	"incLit", "skipLitFalse", "skipVar", "incVar", "argVar", "argVarNamedId", "argVarDefault", "argVarNull", "argVarLeaf0", "argVarLeaf1", "argVarLeaf2", "varTwice", "dup", "dupFirst", "sameKeyTwice", "splitKey", "splitKeyFrag", "dupSwapLeaf", "dupDropLeaf", "named", "namedTwice", "opName", "rootTypename", "rootTypenameAliased"}
+var DecorKinds = []string{"alias", "aliasSib", "aliasParent", "aliasId", "idAliased", "typename", "fragT", "fragN", "fragSkip", "fragIncVarFalse", "fragAbs", "fragAbsTypename", "absTypenameFrag", "id",
+	"incLit", "skipLitFalse", "skipVar", "incVar", "argVar", "argVarNamedId", "argVarDefault", "argVarNull", "argVarLeaf0", "argVarLeaf1", "argVarLeaf2", "varTwice", "dup", "dupFirst", "sameKeyTwice", "splitKey", "splitKeyFrag", "dupSwapLeaf", "dupDropLeaf", "named", "namedTwice", "opName", "rootTypename", "rootTypenameAliased", "rootFragSkipVar"}
 
 // Decorate returns all single-decoration variants of q.
 func Decorate(s *ast.Schema, q string) []Case {
@@ -286,7 +286,7 @@ func Decorate(s *ast.Schema, q string) []Case {
 	n := len(fs)
 	for p := 0; p < n; p++ {
 		for _, k := range DecorKinds {
-			if (k == "opName" || k == "rootTypename" || k == "rootTypenameAliased") && p > 0 {
+			if (k == "opName" || k == "rootTypename" || k == "rootTypenameAliased" || k == "rootFragSkipVar") && p > 0 {
 				continue
 			}
 			d, _ := parser.ParseQuery(&ast.Source{Input: q})
@@ -354,6 +354,19 @@ func Decorate(s *ast.Schema, q string) []Case {
 					ok = false
 				} else {
 					f.SelectionSet = ast.SelectionSet{&ast.InlineFragment{TypeCondition: ft.Name, SelectionSet: f.SelectionSet}}
+				}
+			case "fragSkip", "fragIncVarFalse":
+				// the selections inside a fragment whose directive says: leave out
+				if !hasSel {
+					ok = false
+				} else if k == "fragSkip" {
+					f.SelectionSet = ast.SelectionSet{&ast.InlineFragment{SelectionSet: f.SelectionSet,
+						Directives: ast.DirectiveList{{Name: "skip", Arguments: ast.ArgumentList{{Name: "if", Value: &ast.Value{Kind: ast.BooleanValue, Raw: "true"}}}}}}}
+				} else {
+					f.SelectionSet = ast.SelectionSet{&ast.InlineFragment{TypeCondition: ft.Name, SelectionSet: f.SelectionSet,
+						Directives: ast.DirectiveList{{Name: "include", Arguments: ast.ArgumentList{{Name: "if", Value: &ast.Value{Kind: ast.Variable, Raw: "inc"}}}}}}}
+					op.VariableDefinitions = append(op.VariableDefinitions, &ast.VariableDefinition{Variable: "inc", Type: ast.NonNullNamedType("Boolean", nil)})
+					vars["inc"] = false
 				}
 			case "fragN":
 				if !hasSel || ft.Kind != ast.Object {
@@ -527,6 +540,16 @@ func Decorate(s *ast.Schema, q string) []Case {
 						ok = appendSibling(&op.SelectionSet, f, func(c *ast.Field) { c.Alias = "b" })
 					}
 				}
+			case "rootFragSkipVar":
+				// the whole operation body inside a fragment on the root type that a variable switches off
+				root := "Query"
+				if op.Operation == ast.Mutation {
+					root = "Mutation"
+				}
+				op.SelectionSet = ast.SelectionSet{&ast.InlineFragment{TypeCondition: root, SelectionSet: op.SelectionSet,
+					Directives: ast.DirectiveList{{Name: "skip", Arguments: ast.ArgumentList{{Name: "if", Value: &ast.Value{Kind: ast.Variable, Raw: "off"}}}}}}}
+				op.VariableDefinitions = append(op.VariableDefinitions, &ast.VariableDefinition{Variable: "off", Type: ast.NonNullNamedType("Boolean", nil)})
+				vars["off"] = true
 			case "rootTypename":
 				// the operation's own __typename next to the service fields (answered by the gateway itself)
 				op.SelectionSet = append(ast.SelectionSet{&ast.Field{Name: "__typename", Alias: "__typename"}}, op.SelectionSet...)
@@ -736,4 +759,25 @@ func parentTypeOf(s *ast.Schema, op *ast.OperationDefinition, target *ast.Field)
 		return "", nil
 	}
 	return rec(root, nil, op.SelectionSet)
+}
+
+// HandOps are hand-written operations for shapes no single decoration of an enumerated tree
+// produces (they are added to the plain operation sets of the worlds they are valid on).
+func HandOps(f *Fed) []Case {
+	cands := []Case{
+		// one variable at a non-null and at a nullable position of the same sub-request, in both orders, with and without a default
+		{Q: "mutation ($n: Int!) { incr(by: $n) mkN1 { calc(x: $n) } }", Vars: map[string]interface{}{"n": 2}, Dec: "hand:var-two-positions"},
+		{Q: "mutation ($n: Int!) { mkN1 { calc(x: $n) } incr(by: $n) }", Vars: map[string]interface{}{"n": 2}, Dec: "hand:var-two-positions"},
+		{Q: "mutation ($n: Int = 2) { mkN1 { calc(x: $n) } incr(by: $n) }", Vars: map[string]interface{}{}, Dec: "hand:var-two-positions-default"},
+		{Q: "mutation ($n: Int = 2) { incr(by: $n) mkN1 { calc(x: $n) } }", Vars: map[string]interface{}{}, Dec: "hand:var-two-positions-default"},
+		// a literal that reads like the name of a variable used elsewhere
+		{Q: "query ($name: Int) { echo(x: $name) n1ByName: n1s { calc(x: 1) } }", Vars: map[string]interface{}{"name": 5}, Dec: "hand:literal-like-variable"},
+	}
+	var out []Case
+	for _, c := range cands {
+		if d, _ := f.load(c.Q); d != nil {
+			out = append(out, c)
+		}
+	}
+	return out
 }
